@@ -270,7 +270,7 @@ func TestVerif_C29(t *testing.T) {
 				}
 				return nil
 			}
-			st := vsched.Explore(bound, vsched.Options{}, build, func(choices []int, tr *vsched.Trace) bool {
+			st := vsched.Explore(bound, vsched.Options{Reduce: true}, build, func(choices []int, tr *vsched.Trace) bool {
 				c.AddEval(1)
 				c.AddTransitions(int64(tr.Steps))
 				cs := map[string]interface{}{"scenario": name, "choices": choices, "schedule": strings.Join(tr.Schedule, " ")}
